@@ -23,7 +23,7 @@ ID = "C06"
 LEVEL = "exploration"
 TECHNIQUE = "exhaustive enumeration of a schedule lattice plus all boundary-aligned points (every lattice direction x every constraint x tolerance offsets) on constraint templates x registration orders x tolerance pairs; cmath phasor oracle vs the three real checkers"
 RULE = (
-    "templates (single-phase positive, delta-wye mixed-sign, same-phase mixed-sign, fractional, unconstrained) x 2 registration orders x 6 tolerance pairs (incl. explicit 0 tolerances); "
+    "templates (single-phase positive, delta-wye mixed-sign, same-phase mixed-sign, fractional, duplicated rows with different limits, unconstrained) x 2 registration orders x 6 tolerance pairs (incl. explicit 0 tolerances); "
     "schedules: {0,8,16,32}^3 and, for every lattice direction d and constraint j, lambda*d with |I_j|=limit+f*tol, f in {-3,.5,.9,1.1,2,10}, each also embedded in 2- and 3-period schedules; "
     "non-trivial = point within 10 tolerances of some constraint boundary"
 )
@@ -47,6 +47,8 @@ TEMPLATES = {
     },
     "samephase": {"angles": [30, 30, -90], "cons": [("diff", {"PS-A": 1, "PS-B": -1}, 10.0), ("sum", {"PS-A": 1, "PS-B": 1, "PS-C": 1}, 45.0)]},
     "fractional": {"angles": [30, 30, -90], "cons": [("fr", {"PS-A": 0.5, "PS-B": 1.5, "PS-C": -0.25}, 33.3), ("c", {"PS-C": 1}, 20.0)]},
+    # two constraints on the SAME aggregate current with different limits, the looser one registered first
+    "duprows": {"angles": [30, -90, 150], "cons": [("loose", {"PS-A": 1, "PS-B": 1}, 60.0), ("x", {"PS-C": 1, "PS-A": -1}, 30.3), ("tight", {"PS-A": 1, "PS-B": 1}, 40.5)]},
     "none": {"angles": [30, -90, 150], "cons": []},
 }
 ORDERS = [["PS-A", "PS-B", "PS-C"], ["PS-C", "PS-A", "PS-B"]]
@@ -140,6 +142,8 @@ def space(tier, seed):
         for oi in range(len(ORDERS)):
             for ti in range(len(TOLS)):
                 for mode in (1, 2, 3):  # periods per schedule
+                    if (0.0 in TOLS[ti] and mode == 3) or (tname == "duprows" and (ti in (1, 2, 5) or (oi == 1 and mode > 1))):
+                        continue  # keeps the quick tier short; these corners add no new code path
                     it = {"tpl": tname, "order": oi, "tol": ti, "T": mode}
                     if 0.0 in TOLS[ti]:
                         it["nettol"] = 3
@@ -192,6 +196,13 @@ def check_point(tname, order, tol, net, iface, cols, viol, tag, net_tol=None):
         variants.append({st: d_full[st] for st in reversed(order) if st not in zero})
     for perm in itertools.permutations(order):
         variants.append({st: d_full[st] for st in perm})
+    # rows given as Python ints where the values are integral (an idle station is [0, 0]), such a row listed FIRST
+    # and fractional rows after it
+    as_int = {st: ([int(v) for v in d_full[st]] if all(float(v).is_integer() for v in d_full[st]) else d_full[st]) for st in order}
+    ints_first = sorted(order, key=lambda st: 0 if all(isinstance(v, int) for v in as_int[st]) else 1)
+    if any(isinstance(v, int) for st in order for v in as_int[st]) and any(not isinstance(v, int) for st in order for v in as_int[st]):
+        variants.append({st: as_int[st] for st in ints_first})
+        variants.append({st: np.array(as_int[st]) for st in ints_first})
     for dd in variants:
         got_i = bool(iface.is_feasible(dd, violation_tolerance=tol[0], relative_tolerance=tol[1]))
         if got_i != exp:
